@@ -150,13 +150,15 @@ pub struct Call {
 pub enum DevErr {
     /// injected fault carrying its tag
     Injected(u64),
+    /// injected "interrupted, try again" condition: the one error the storage traits document as retryable
+    Interrupted,
     UnexpectedEof,
     WriteZero,
 }
 
 impl fatfs::IoError for DevErr {
     fn is_interrupted(&self) -> bool {
-        false
+        matches!(self, DevErr::Interrupted)
     }
     fn new_unexpected_eof_error() -> Self {
         DevErr::UnexpectedEof
@@ -181,6 +183,8 @@ pub struct DevInner {
     pub fired: Option<Call>,
     /// restrict fault injection to a kind (None = any)
     pub fail_kind: Option<Kind>,
+    /// the injected error is DevErr::Interrupted instead of DevErr::Injected
+    pub fail_interrupted: bool,
     pub log_calls: bool,
     pub log: Vec<Call>,
     /// ordered list of (offset, data) of every write, for crash images
@@ -229,6 +233,7 @@ impl MemDev {
             fail_tag: 0,
             fired: None,
             fail_kind: None,
+            fail_interrupted: false,
             log_calls: false,
             log: Vec::new(),
             log_data: false,
@@ -321,6 +326,9 @@ impl DevInner {
         if let Some(k) = self.fail_at {
             if self.calls == k && self.fired.is_none() && self.fail_kind.map_or(true, |fk| fk == kind) {
                 self.fired = Some(c);
+                if self.fail_interrupted {
+                    return Err(DevErr::Interrupted);
+                }
                 return Err(DevErr::Injected(self.fail_tag));
             }
         }
